@@ -559,6 +559,7 @@ func verifObjGet(x []byte, p string) []byte {
 }
 func verifObjWellFormed(x []byte) bool { return true }
 
+func verifMapSource(src string)       {}
 func verifMapEmits(d verifDoc) bool   { return false }
 func verifMapKey(d verifDoc) []byte   { return nil }
 func verifMapValue(d verifDoc) []byte { return nil }
